@@ -280,6 +280,7 @@ type Run struct {
 	closeAfter  int // EarlyClose: start closing after this many client operations (0: at quiescence)
 	earlyClosed bool
 	diffQueries []qSpec
+	extQueries  []qSpec
 	refAnswers  map[int]*answer
 	observations []Violation // non-fatal observations matched against known findings by the driver
 	expectPlan  *mergeplan.MergePlan
@@ -568,7 +569,7 @@ func (r *Run) exec(c *client, op *Op) {
 		}
 		h := &heldReader{r: rd, base: base, openWin: r.s.Win, fromDisk: true}
 		if r.p.ExtRead {
-			h.baseExt = ReadExt(rd)
+			h.baseExt = ReadExt(rd, r.extQueries...)
 		}
 		r.mu.Lock()
 		r.slots[op.Slot] = h
@@ -588,12 +589,12 @@ func (r *Run) exec(c *client, op *Op) {
 		}
 		h := &heldReader{r: rd, base: base, openWin: r.s.Win}
 		if r.p.ExtRead {
-			h.baseExt = ReadExt(rd)
+			h.baseExt = ReadExt(rd, r.extQueries...)
 			// asked again at once in another order, while this reader is still
 			// the writer's current root (recycled iterators are only used
 			// then): the answers must not depend on what was asked before
 			for _, rot := range []int{3, 7} {
-				if d := diffExt(h.baseExt, ReadExtRot(rd, rot)); d != "" {
+				if d := diffExt(h.baseExt, ReadExtRot(rd, rot, r.extQueries...)); d != "" {
 					r.fail("reader-isolation", fmt.Sprintf("a Reader just obtained from the writer (window %d) answered differently when the same reads were repeated in another order: %s", r.s.Win, d))
 					return
 				}
@@ -657,7 +658,7 @@ func (r *Run) rereadHeld(slot int, h *heldReader) {
 		return
 	}
 	if h.baseExt != nil {
-		ext := ReadExtRot(h.r, r.s.Win) // same reads in another order: answers must not depend on search history
+		ext := ReadExtRot(h.r, r.s.Win, r.extQueries...) // same reads in another order: answers must not depend on search history
 		if d := diffExt(h.baseExt, ext); d != "" {
 			r.fail("reader-isolation", fmt.Sprintf("held reader #%d (opened in window %d) changed: %s", slot, h.openWin, d))
 			return
@@ -1343,6 +1344,9 @@ func (r *Run) Execute() {
 		r.chain = NewChain(&Model{})
 	}
 	r.slots = make([]*heldReader, 3)
+	if r.p.ExtRead {
+		r.extQueries = genQueries(t, 6+t.Draw(6, "ext.nq"), r.k.Geo)
+	}
 
 	defer r.teardown()
 
